@@ -268,3 +268,25 @@ Proof.
   exists u_raise, e_d24, o_d24, []. vm_compute. repeat split; congruence.
 Qed.
 Print Assumptions C01_transparency_refuted_effects_switch_D24.
+
+(** D26: a pre-set dictionary INSIDE a cached expression (excluded from [frag]).  Default options
+    {S: {X: 1}} around Option('S.X', default 9): under {S: []} the caller's list replaces the pre-set
+    section, S.X is absent, the default 9 is the value and keys() = [] — the caller's entry S, on
+    which the outcome depends, is reported nowhere; 9 is stored under the EMPTY fingerprint and served
+    for {} although the cache-free evaluation yields the pre-set 1. *)
+Definition kSX : key := [SName 20; SName 21].
+Definition e_d26 : expr :=
+  EWith false [(SName 20, JObj [(SName 21, JInt 1)])] (EOption kSX (Some (EValue (VJ (JInt 9)))) None).
+
+Theorem C01_transparency_refuted_D26 :
+  exists e o o',
+    frag e = false /\
+    let '(r1, s1, _) := evalC (ECached (CMem 1) e) o [] in
+    let '(r2, _, _) := evalC (ECached (CMem 1) e) o' s1 in
+    r1 = Ok (VJ (JInt 9)) /\ r2 = Ok (VJ (JInt 9)) /\
+    fst (fst (evalN u0 10 e o' tt)) = Ok (VJ (JInt 1)) /\
+    fst (fst (keysN u0 10 e o tt)) = Ok [] /\ fst (fst (keysN u0 10 e o' tt)) = Ok [].
+Proof.
+  exists e_d26, [(SName 20, JList [])], []. vm_compute. repeat split; congruence.
+Qed.
+Print Assumptions C01_transparency_refuted_D26.
